@@ -98,7 +98,8 @@ static Verdict evaluate(const MsgCase &c, const c05_out &o, bool &hang) {
   for (uint32_t i = 0; i < n; i++) {
     const tp_rec &r = tp_log_buf[i];
     if (r.kind == R_SEND_CALL || r.kind == R_SEND_RET || r.kind == R_CB) {
-      PBT_REQUIRE(r.a < si.size() && si[r.a].used, "callback or record for a message id that was never sent: " << r.a);
+      PBT_REQUIRE(r.a < si.size() && si[r.a].used, "callback or record for a message id that was never sent: " << r.a << " (record " << i << " of " << n << ": kind " << r.kind << " thr " << r.thr << " a " << r.a << " b " << r.b
+                                                           << " c " << r.c << " d " << r.d << " cur " << r.cur << ", hang " << o.hang << ")");
       SendInfo &x = si[r.a];
       if (r.kind == R_SEND_CALL) { x.call = i; x.call_thr = r.thr; x.call_cur = r.cur; }
       else if (r.kind == R_SEND_RET) { x.ret = i; x.rc = (long long)(int64_t)r.b; }
